@@ -112,6 +112,8 @@ CANARIES = [
     ('tree-keep-empty-only-child', 'C01', 'src/bucket.rs', '                        if branches.len() == 1 && node.data.len() > 0 {', '                        if branches.len() == 1 {'),
     ('delbucket-no-already-freed-guard', 'C05', 'src/bucket.rs', '                                if !freelist.is_freed(meta.root_page) {\n                                    remaining_pages.push(meta.root_page);\n                                }', '                                remaining_pages.push(meta.root_page);'),
     ('isfreed-other-tx', 'C05', 'src/freelist.rs', '            .get(&self.meta.tx_id)\n            .map_or(false, |pages| pages.contains(&page_id))', '            .get(&(self.meta.tx_id - 1))\n            .map_or(false, |pages| pages.contains(&page_id))'),
+    ('put-overwrites-bucket', 'C01', 'src/bucket.rs', '            if current.is_kv() != leaf.is_kv() {\n                return Err(Error::IncompatibleValue);\n            }\n', ''),
+    ('delete-missing-wrong-error', 'C01', 'src/bucket.rs', '        } else {\n            Err(Error::KeyValueMissing)\n        }', '        } else {\n            Err(Error::IncompatibleValue)\n        }'),
     ('getter-create-over-cached', 'C01', 'src/bucket.rs', '        } else if must_create {\n            return Err(Error::BucketExists);\n        }', '        }'),
     ('getter-wrong-error-kind', 'C01', 'src/bucket.rs', '                        _ => return Err(Error::IncompatibleValue),\n                    },', '                        _ => return Err(Error::BucketMissing),\n                    },'),
     ('getter-counts-lookups', 'C01', 'src/bucket.rs', '            if !exists {\n                if should_create {\n                    self.meta.next_int += 1;', '            self.meta.next_int += 1;\n            if !exists {\n                if should_create {'),
